@@ -1,11 +1,19 @@
 """C15 -- macro templates expand by exact substitution.
 
 spec: Quasi (independent substitution function Subst over templates with unquote / unquote-splicing in lists,
-      arrays and hash forms; laws audited by TLC over all small templates: MCQuasi)
-bind: ^template for every list/array template of width <= 3 over 18 element kinds (atoms, ~x, ~compound, ~@list,
-      ~@singleton, ~@empty, ~@non-list, nested list/array/hash-form), hash forms, depth-3 nestings; 8 macro bodies
-      x 5 call sites (top level, function, loop, let with shadowing names, inside another macro): macexpand vs
-      Subst, call vs hand-written expansion (value and effects), caller depths/globals around the expansion.
+      arrays, hash forms and hash objects; Eval gives the value of an unquoted expression of a small pure
+      language -- (begin) and (newScope) without forms are nil, an expression that is rejected has no value and
+      neither has the template; laws audited by TLC over all small templates: MCQuasi)
+bind: ^template for every list/array template of width <= 3 over 23 element kinds (atoms, ~x, ~compound, ~@list,
+      ~@singleton, ~@empty, ~@non-list, nested list/array/hash-form), hash forms, depth-3 nestings; 33 further
+      element kinds (unquoted expressions that compile to no instruction, nil-valued, valued, rejected when
+      compiled or when run; ~@expression; negative literals; %datum and ^datum sugar) alone (depth 0), as only
+      element, in the middle, nested, inside a function, beside every other kind; templates holding hash OBJECTS
+      (built as a value, through eval and through a macro returning the syntaxQuote form) with every element kind
+      in value position; 14 macro bodies x 6 call sites (top level, function, loop, let with shadowing names,
+      loop+let, inside another macro): macexpand vs Subst, call vs hand-written expansion (value and effects),
+      caller depths/globals around the expansion; 36 macro NAMES (ordinary, special forms, builtin, bound variable,
+      reserved words) x 2 call sites: a definition that is accepted is reached by calls.
 """
 import collections, json, os
 import vlib, flow
@@ -22,19 +30,26 @@ def run():
     cases, v = flow.validate(out, "quasi", "QuasiTrace.tla", "QuasiTrace.cfg", trace, zv)
     kinds = collections.Counter(c["kind"] for c in cases.values())
     bad_kinds = [k for k in kinds if k not in ("template", "macro")]
-    if bad_kinds:
-        raise vlib.Inconclusive("macro cases could not be set up: %s" % dict(kinds))
+    # a refused definition says nothing; the ordinary names (every mac-* case, the controls of the names
+    # dimension) must have been accepted, or the macro cases were not set up
+    unset = [i for i, c in cases.items() if c["kind"] == "macro" and v[i][:2] == ("ok", '"refused"')
+             and (i.startswith("mac-") or c.get("name") in ("mfree", "mac2"))]
+    if bad_kinds or unset:
+        raise vlib.Inconclusive("macro cases could not be set up: %s %s" % (dict(kinds), unset[:5]))
     cov = {
         "programs": len(cases),
         "disagreements_checked": sum(1 for i in cases if v[i][0] in ("ok", "bad")),
         "templates": kinds["template"], "macro_cases": kinds["macro"],
+        "hash_object_templates": sum(1 for c in cases.values() if c.get("route") in ("eval", "macro")),
+        "macro_names": len(set(c.get("name") for c in cases.values() if c.get("name"))),
         "states": out.states, "transitions": out.transitions,
         "verdicts": dict(collections.Counter("%s/%s" % (v[i][0], v[i][1].strip('"')) for i in cases)),
         "samples": [{"text": c["text"], "out": c.get("out"), "expansion": c.get("expansion")} for c in list(cases.values())[100:102] + list(cases.values())[-1:]],
         "exhaustive": vlib.tier() == "thorough",
     }
     return flow.finish(out, "translation_validation", cov, [
-        "the template language is the one of Quasi.tla (no nested syntax-quotes, no top-level splice, hash literals are the reader's (hash ...) forms)",
+        "the template language is the one of Quasi.tla (no top-level splice; hash literals are the reader's (hash ...) forms, hash objects enter a template built as a value; unquoted expressions are the pure ones of Quasi!Eval)",
+        "an expression 'without a value' is one the interpreter rejects when it is written on its own (the harness checks that premise at start)",
         "the hand-written expansion text is produced by the harness's own substitution; macexpand output is compared with Quasi!Subst by TLC",
     ])
 
